@@ -273,6 +273,9 @@ pub fn set_preference(name: String, value: String) -> Result<()> {
         }
         let lower_case_value = value.to_lowercase();
         if lower_case_value == "true" || lower_case_value == "false" {
+            if !pref_manager.is_boolean_pref(&name) {
+                bail!("{} is not a (known) boolean-valued MathCAT preference: can't set it to '{}'", name, value);
+            }
             pref_manager.set_api_boolean_pref(&name, value.to_lowercase() == "true");
         } else {
             match name.as_str() {
